@@ -324,7 +324,7 @@ func RunCodec(e *Env) {
 	}
 	mutate := func(b []byte) []byte {
 		b = append([]byte(nil), b...)
-		switch rng.Intn(8) {
+		switch rng.Intn(10) {
 		case 0: // truncate
 			if len(b) > 0 {
 				b = b[:rng.Intn(len(b))]
@@ -363,6 +363,26 @@ func RunCodec(e *Env) {
 			}
 		case 6: // random bytes
 			b = randBytes(rng, false)
+		case 8: // payload length prefix overstated / understated by 1..3
+			md, n := protowire.ConsumeBytes(b)
+			if n > 0 && n < len(b) {
+				l, n2 := protowire.ConsumeVarint(b[n:])
+				if n2 > 0 {
+					d := uint64(1 + rng.Intn(3))
+					if rng.Intn(2) == 0 && l >= d {
+						l -= d
+					} else {
+						l += d
+					}
+					nb := protowire.AppendBytes(nil, md)
+					nb = protowire.AppendVarint(nb, l)
+					b = append(nb, b[n+n2:]...)
+				}
+			}
+		case 9: // cut the frame short by 1..3 bytes
+			if k := 1 + rng.Intn(3); len(b) > k {
+				b = b[:len(b)-k]
+			}
 		case 7: // drop the payload section / duplicate the metadata section
 			md, n := protowire.ConsumeBytes(b)
 			if n > 0 {
@@ -378,7 +398,11 @@ func RunCodec(e *Env) {
 	scratch := filepath.Join(os.TempDir(), fmt.Sprintf("c13-input-%d.bin", os.Getpid()))
 	defer os.Remove(scratch)
 	outcomes := map[string]int64{}
-	tryOne := func(b []byte, label string) {
+	tryOne := func(b0 []byte, label string) {
+		// gRPC hands the codec a buffer whose capacity equals its length: reproduce that (a sub-slice of a larger
+		// buffer would hide out-of-range slicing)
+		b := make([]byte, len(b0))
+		copy(b, b0)
 		for _, response := range []bool{false, true} {
 			_, err, pan := safeUnmarshal(codec, b, response)
 			switch {
@@ -467,18 +491,30 @@ func codecEndToEnd(e *Env, hostile [][]byte, rng *rand.Rand) {
 		dir := NewDirector()
 		cl.SetBehaviour(dir.Behaviour)
 		for code := 1; code <= 16; code++ {
-			tok := h.NewToken()
-			msg := fmt.Sprintf("handler says nö ☃ %d", code)
-			p := dir.Set(tok, cl.IDs[0], &Plan{Act: ActError, Code: codes.Code(code), Msg: msg})
-			p.Open()
-			ctx, cancel := context.WithTimeout(context.Background(), 5*time.Second)
-			_, err := cl.Node(0).RPC(ctx, &puppet.Req{Call: tok})
-			cancel()
-			st, ok := status.FromError(err)
-			if !ok || st.Code() != codes.Code(code) || st.Message() != msg {
-				R.Violate("handler-status-not-preserved", fmt.Sprintf("handler returned %s/%q, caller saw %v", codes.Code(code), msg, err), nil)
+			// error with text, success, error with empty text, success: every reply must carry exactly its own status
+			for step, msg := range []string{fmt.Sprintf("handler says nö ☃ %d", code), "<ok>", "", "<ok>"} {
+				tok := h.NewToken()
+				pl := &Plan{Act: ActError, Code: codes.Code(code), Msg: msg}
+				if msg == "<ok>" {
+					pl = &Plan{Act: ActReply}
+				}
+				p := dir.Set(tok, cl.IDs[0], pl)
+				p.Open()
+				ctx, cancel := context.WithTimeout(context.Background(), 5*time.Second)
+				rep, err := cl.Node(0).RPC(ctx, &puppet.Req{Call: tok})
+				cancel()
+				if msg == "<ok>" {
+					if err != nil || rep.GetCall() != tok {
+						R.Violate("status-leaks-into-later-reply", fmt.Sprintf("handler returned a reply without error (after an earlier %s error), caller saw %v", codes.Code(code), err), nil)
+					}
+				} else {
+					st, ok := status.FromError(err)
+					if !ok || st.Code() != codes.Code(code) || st.Message() != msg {
+						R.Violate("handler-status-not-preserved", fmt.Sprintf("handler returned %s/%q, caller saw %v", codes.Code(code), msg, err), nil)
+					}
+				}
+				R.Eval(fmt.Sprintf("e2e-status|%d|%d", code, step), true)
 			}
-			R.Eval(fmt.Sprintf("e2e-status|%d", code), true)
 		}
 		cl.Close()
 	}
